@@ -137,7 +137,7 @@ def main():
         if ops[tv["op"]] == 3:
             run.sample({k: tv[k] for k in tv if k not in ("exp", "Ad", "E", "p", "p2")}, limit=12)
         replay(run, cache, tv)
-    if set(ops) != OPS or not {"zero", "small", "nearpi", "pi", "beyondpi", "regular"} <= set(cells):
+    if set(ops) != OPS or not {"zero", "small", "nearpi", "pi", "beyondpi", "regular", "nearpole"} <= set(cells):
         raise MachineryError(f"vacuous coverage: ops={sorted(OPS - set(ops))} cells={sorted(cells)}")
     run.assumptions += [
         "algebra elements of rational half-angle type (dense, countable): theta = 2 atan2(|v|, w) for integer (w, v), from 5e-4 rad to just under 2 pi, both sides of both Taylor switches, exactly 0 and exactly pi",
